@@ -782,9 +782,13 @@ func cmdRun(args []string) int {
 	cov["rule"] = prop.Rule
 	ev.Coverage = cov
 	ev.WallS = time.Since(start).Seconds()
-	os.MkdirAll(filepath.Join(verifDir, "evidence"), 0o755)
+	evDir := filepath.Join(verifDir, "evidence")
+	if d := os.Getenv("VCHECK_EVIDENCE_DIR"); d != "" { // trials with deliberately broken trees must not overwrite the evidence of the real tree
+		evDir = d
+	}
+	os.MkdirAll(evDir, 0o755)
 	eb, _ := json.MarshalIndent(ev, "", " ")
-	if err := os.WriteFile(filepath.Join(verifDir, "evidence", id+".json"), eb, 0o644); err != nil {
+	if err := os.WriteFile(filepath.Join(evDir, id+".json"), eb, 0o644); err != nil {
 		fatal("%v", err)
 	}
 	fmt.Printf("%s %s: scenarios=%d executions=%d decision-nodes=%d steps=%d evaluations=%d outcomes=%d bound>=%d exhaustive=%v wall=%.1fs\n",
